@@ -8,10 +8,50 @@ package bytecode
 // VerifStep, when set, is called at the top of every VM step.
 var VerifStep func(ip int, op byte, sp int)
 
+// VerifStepTop, when set, is called at the top of every VM step with the
+// kind and print form of the value on top of the stack ("" when it is empty).
+var VerifStepTop func(ip int, op byte, sp int, top string)
+
 func verifStep(vm *VM, ip int, op Opcode) {
 	if VerifStep != nil {
 		VerifStep(ip, byte(op), vm.sp)
 	}
+	if VerifStepTop != nil {
+		top := ""
+		if vm.sp > 0 {
+			top = verifKind(vm.stack[vm.sp-1])
+		}
+		VerifStepTop(ip, byte(op), vm.sp, top)
+	}
+}
+
+// verifKind renders a value with a letter for its kind in front: n num,
+// s string, b bool, a array, m map, - none.
+func verifKind(v value) string {
+	switch v.(type) {
+	case numVal:
+		return "n:" + verifRender(v)
+	case stringVal:
+		return "s:" + verifRender(v)
+	case boolVal:
+		return "b:" + verifRender(v)
+	case arrayVal:
+		return "a:" + verifRender(v)
+	case mapVal:
+		return "m:" + verifRender(v)
+	case noneVal:
+		return "-:"
+	}
+	return "?:"
+}
+
+// VerifConstants returns kind and print form of every constant.
+func (b *Bytecode) VerifConstants() []string {
+	out := make([]string, len(b.Constants))
+	for i, c := range b.Constants {
+		out[i] = verifKind(c)
+	}
+	return out
 }
 
 // VerifSP returns the VM's stack pointer.
